@@ -30,6 +30,7 @@ ASSUMPTIONS = [
 SOURCE_FILES = ["barter-data/src/exchange/binance/spot/l2.rs", "barter-data/src/exchange/binance/futures/l2.rs",
                 "barter-data/src/exchange/binance/book/l2.rs", "barter-data/src/books/mod.rs", "barter-data/src/error.rs",
                 "barter-data/src/streams/reconnect/stream.rs"]
+PREBUILD = [["python3", "tools/rust2lean_sm.py", "--require", "sequencer"]]
 
 
 def signature(ops, k, key, impl_line, spec_line):
@@ -76,4 +77,9 @@ LEVEL_NOTE = ("Trusted: Lean kernel; axioms propext/Classical.choice/Quot.sound 
               "trichotomy and admitted_chain need none); futures no_false_alarm needs the delivery to contain the message covering the snapshot id (the published "
               "rule rejects a start at pu = s); distinct instrument keys per connection; that the terminal error leads to re-initialisation and a Reconnecting notice "
               "is C12's statement. no_false_alarm is stated for one instrument (Local.run); for interleaved instruments it follows per instrument only through "
-              "connection_book_is_truth/told_iff, not as a separate connection-level theorem. Exact rationals; u64 overflow and timestamps not modelled.")
+              "connection_book_is_truth/told_iff, not as a separate connection-level theorem. Exact rationals; u64 overflow and timestamps not modelled."
+              " Additionally tied by translation: the sequencer step functions (new, is_first_update, validate_first_update, validate_next_update, validate_sequence of "
+              "both Binance*OrderBookL2Sequencer impls, with DataError::InvalidSequence and the u64 fields of the update structs) are regenerated as Lean state-passing "
+              "functions from the current source on every run (tools/rust2lean_sm.py) and proved equal to the model's for all states and updates "
+              "(kernels_agree_with_source), so a change of such a function breaks a proof obligation directly; the translator's reading of its Rust subset "
+              "(u64 as unbounded Nat) is trusted for that tie.")
